@@ -29,6 +29,14 @@ def upgrade_exchange(rng):
             "respBody": "", "respFraming": "none", "respFramePos": 0}
 
 
+def plain_exchange(rng, n):
+    """an ordinary keep-alive HTTP/1.1 exchange that precedes the upgrade request on the same connection"""
+    return {"method": "GET", "target": "/pre%d/%s" % (n, H.rand_token(rng)), "proto": "1.1", "reqHeaders": [["Host", "h.example"], ["X-Pre", str(n)]],
+            "reqBody": "", "reqFraming": "none", "reqFramePos": 0,
+            "status": rng.choice([200, 204, 404]), "reason": "R", "respProto": "1.1",
+            "respHeaders": [["Content-Length", "0"], ["X-Pre", str(n)]], "respBody": "", "respFraming": "cl", "respFramePos": 0}
+
+
 def gen_cases(ctx):
     rng = ctx.rng
     quick = ctx.tier == "quick"
@@ -105,7 +113,11 @@ def gen_cases(ctx):
             pos += 1
         case["bodylimit"] = -1
         case["wantoracle"] = True
-        out.append((case, {"kind": "h2c", "streams": streams, "mode": "h2c", "upgrade": up, "s1": s1}))
+        # the upgrade is not always the first request of its connection
+        pre = [plain_exchange(rng, n) for n in range(rng.choice([0, 0, 1, 2, 3]) if i != 1 else 2)]
+        if pre:
+            case["h2"]["pre"] = pre
+        out.append((case, {"kind": "h2c", "streams": streams, "mode": "h2c", "upgrade": up, "s1": s1, "pre": pre}))
     if not quick:
         # every interleaving of up to 3 streams x up to 3 frames per half
         import itertools
@@ -162,8 +174,13 @@ def check_upgrade_items(meta, views):
     up, s1 = meta["upgrade"], meta["s1"]
     rest = list(views)
     h1 = [v for v in rest if not v.get("unreadable") and v["req_ver"] == "HTTP/1.1" and v["res_ver"] == "HTTP/1.1"]
-    if len(h1) != 1 or h1[0]["status"] != 101 or h1[0]["method"] != "GET" or h1[0]["url"] != up["target"] or h1[0]["abbr"] != "HTTP":
+    ups = [v for v in h1 if v["status"] == 101]
+    if len(ups) != 1 or ups[0]["method"] != "GET" or ups[0]["url"] != up["target"] or ups[0]["abbr"] != "HTTP":
         problems.append("upgrade-exchange-item")
+    pre = meta.get("pre") or []
+    got_pre = sorted((v["method"], v["url"], v["status"]) for v in h1 if v["status"] != 101)
+    if got_pre != sorted((e["method"], e["target"], e["status"]) for e in pre):
+        problems.append("exchanges-before-the-upgrade")
     for v in h1:
         rest.remove(v)
     mixed = [v for v in rest if not v.get("unreadable") and v["req_ver"] == "HTTP/1.1" and v["res_ver"] == "HTTP/2.0"]
